@@ -86,7 +86,8 @@ fn gen(seed: u64, idx: u64) -> Spec {
             _ => UvOutcome::Check { presence: true, verification: true },
         },
         ver_cap: *rng.pick(&[Some(true), Some(true), Some(true), Some(false), None]),
-        rp: *rng.pick(&["example.com", "example.org"]),
+        // an RP ID is an opaque string to the authenticator: also spellings a platform may hand over
+        rp: *rng.pick(&["example.com", "example.org", "example.com", "example.org", "example.com.", "localhost.", "Example.COM", "example.com..", ".", ""]),
         n_seeded: if store == StoreKind::Single { 1 } else { rng.range(0, 3) },
         list: match rng.below(6) {
             0 => None,
@@ -310,12 +311,20 @@ where
 /// the follow-up steps of a sequence: same store / configuration as the base step, other requests
 fn gen_more(seed: u64, idx: u64, base: &Spec) -> (Vec<Spec>, Vec<Option<Disc>>) {
     let mut rng = Rng::derive(seed, "c18seq", idx);
-    let n = if idx % 3 == 0 { rng.range(1, 3) } else { 0 };
+    // every eighth history is a longer run of ceremonies, most of them asking for user verification
+    // (whatever the user did before, the next command is answered as the direct method answers it)
+    let long = idx % 8 == 5;
+    let n = if long { rng.range(3, 7) } else if idx % 3 == 0 { rng.range(1, 3) } else { 0 };
     let mut more = Vec::new();
     let mut flips: Vec<Option<Disc>> = vec![None];
     for j in 0..n {
         let mut s = gen(seed, idx * 16 + 1 + j as u64);
         s.op = *rng.pick(&[OpKind::Info, OpKind::Info, OpKind::Make, OpKind::Get]);
+        if long {
+            s.op = *rng.pick(&[OpKind::Make, OpKind::Get, OpKind::Get]);
+            s.uv = !rng.chance(1, 6);
+            s.pin_auth = false;
+        }
         s.store = base.store;
         s.cfg = base.cfg;
         s.disc = base.disc;
